@@ -3,6 +3,28 @@ W = 'flipjump/fjm/fjm_writer.py'
 R = 'flipjump/fjm/fjm_reader.py'
 K = 'flipjump/fjm/fjm_consts.py'
 MUTANTS = [
+    M('C06', 'EQ reader decodes words with int.from_bytes little-endian after a whole-word length check (same codec, other spelling)', R,
+      """        data = [
+            unpack(read_tag, file_data[i : i + word_bytes_size])[0]  # noqa: E203
+            for i in range(0, len(file_data), word_bytes_size)
+        ]
+""",
+      """        if len(file_data) % word_bytes_size:
+            raise FlipJumpReadFjmException('Error: the data ends inside a word.')
+        data = [
+            int.from_bytes(file_data[i : i + word_bytes_size], 'little')  # noqa: E203
+            for i in range(0, len(file_data), word_bytes_size)
+        ]
+""", None),
+    M('C06', 'reader decodes words big-endian with int.from_bytes, writer packs little-endian', R,
+      """            unpack(read_tag, file_data[i : i + word_bytes_size])[0]  # noqa: E203""",
+      """            int.from_bytes(file_data[i : i + word_bytes_size], 'big')  # noqa: E203""", 'C06.FORMATS'),
+    M('C06', 'EQ writer packs the words with to_bytes little-endian (same codec, other spelling)', W,
+      """        fjm_data = pack(f'<{len(self.data)}{word_format}', *self.data)""",
+      """        fjm_data = b''.join(word.to_bytes(self.word_size // 8, 'little') for word in self.data)""", None),
+    M('C06', 'writer packs the words with to_bytes of one byte too many', W,
+      """        fjm_data = pack(f'<{len(self.data)}{word_format}', *self.data)""",
+      """        fjm_data = b''.join(word.to_bytes(self.word_size // 8 + 1, 'little') for word in self.data)""", 'C06.FORMATS'),
     M('C06', 'writer: relative jump uses the wrong index base', W, "(self.data[data_start + i] - (segment_start + i) * self.word_size) & word_mask",
       "(self.data[data_start + i] - (segment_start + i - 1) * self.word_size) & word_mask", 'C06.RELJUMP-INVERSE'),
     M('C06', 'reader: relative jump re-based with data_start', R, "data[data_start + i + 1] + (segment_start + i + 1) * self.memory_width",
